@@ -198,6 +198,8 @@ func main() {
 		"jwt A: every minted token (signer/alg x exp x iss x aud x permission claim x claim key) x tamper x configured (issuer, audience, claim key); " +
 		"jwt B: (token field x password x query placement) over {valid, wrong-key} tokens x action/protocol x JWTInHTTPQuery x exclude; " +
 		"jwt C: JWKS server failure modes and the key-rotation history with RefreshJWTJWKS; " +
+		"jwt D: every history of length <= 4 [5] over {publish {k1} / {k2} / {k1,k2}, fail the next download (500 / garbage), down, RefreshJWTJWKS, period expiry, " +
+		"authenticate with a k1 / k2 token} on a fresh manager, followed by the observation suffix T1 T2 T1 T2; " +
 		"distinct = (part, class of the input along every dimension that the statement mentions, decision)"
 
 	t0 := time.Now()
@@ -212,6 +214,7 @@ func main() {
 		"cryptographic validity is by construction: a token is valid iff the harness signed exactly these bytes with a key published in the JWKS; forgery by chance is ignored",
 		"don't-cares (statement silent): token without exp, token without kid signed by a JWKS key, duplicated or unparsable query keys, MoQ as 'HTTP protocol', 307/308 redirects of the auth POST that re-send the body",
 		"expiry uses the wall clock with a margin of one hour (exp = now +- 1h); no boundary instants",
+		"jwt D: the JWKS server is the harness, so 'the last key set downloaded successfully' is what the server really served; a refresh is pending on a fresh manager, after RefreshJWTJWKS and after the period expiry, until a download is answered with a key set; while no refresh is pending the manager may use the last set or download again (judged only where both agree); the period expiry is produced by moving the unexported field jwksLastRefresh 61 minutes into the past (no clock seam in internal/auth); 'down' = the server hangs up without answering",
 		"exhaustive inside the listed alphabets only; reported user name and AskCredentials are not part of the C02 statement and are not judged",
 	}
 	replaySummary()
